@@ -134,3 +134,108 @@ class IngvHorus:
 
     def raises(c, exc, fname, _n, _orig):
         return None
+
+
+# ------------------------------------------------------------------ ZMAP
+ZMAP = 'csep.utils.readers.zmap_ascii'
+# lon lat year month day mag depth hour minute second (+ error columns and network, not read)
+Z_LON, Z_LAT, Z_Y, Z_MO, Z_D, Z_MAG, Z_DEP, Z_H, Z_MI, Z_S = range(10)
+Z_INT = (Z_Y, Z_MO, Z_D, Z_H, Z_MI, Z_S)
+
+
+def zmap_epoch_ms(IV, t):
+    y, mo, d, h, mi, s = (IV[k](t) for k in Z_INT)
+    return (CIVIL_DAY(y, mo, d) * 86400 + h * 3600 + mi * 60 + s) * 1000
+
+
+class ZmapLoop(LoopInv):
+    def trips(self, I, it):
+        arr = it.inner if isinstance(it, Opaque) else it
+        return to_z3(arr.shape[0])
+
+    def item(self, I, it, i):
+        arr = it.inner if isinstance(it, Opaque) else it
+        return (i, I.lib.getitem(arr, i))
+
+    def havoc(self, I, fr, i, it):
+        self.E = I.ctx.fresh_fun('out_epoch_ms', z3.IntSort(), z3.IntSort())
+        self.ID = I.ctx.fresh_fun('out_id', z3.IntSort(), z3.IntSort())
+        self.V = {k: I.ctx.fresh_fun('out_' + k, z3.IntSort(), z3.RealSort()) for k in ('lat', 'lon', 'depth', 'mag')}
+        E, ID, V = self.E, self.ID, self.V
+        fr.locals['out'] = SymList(to_z3(i), lambda t: (ID(to_z3(t)), E(to_z3(t)), V['lat'](to_z3(t)), V['lon'](to_z3(t)),
+                                                        V['depth'](to_z3(t)), V['mag'](to_z3(t))), 'out')
+        for nm in ('line', 'dt', 'event_id', 'event_tuple'):
+            fr.locals.pop(nm, None)
+
+    @staticmethod
+    def clause(I, rec, t):
+        z = I.ctx.ghost['zmap_file']
+        COL, IV = z['COL'], z['IV']
+        eid, ep, la, lo, de, mg = rec
+        return z3.And(to_z3(eid) == t, to_z3(ep) == zmap_epoch_ms(IV, t), to_real(la) == COL[Z_LAT](t), to_real(lo) == COL[Z_LON](t),
+                      to_real(de) == COL[Z_DEP](t), to_real(mg) == COL[Z_MAG](t))
+
+    def inv(self, I, fr, i, it):
+        out = fr.locals['out']
+        i = to_z3(i)
+        n_l = to_z3(out.n) if isinstance(out, SymList) else z3.IntVal(len(out))
+        yield 'one event per record read', n_l == i
+        if self.mode == 'prove':
+            t = I.ctx.fresh_int('t!sk')
+            if isinstance(out, SymList):
+                yield 'event t carries the id t, the instant and the numbers of record t', z3.Implies(z3.And(0 <= t, t < i), self.clause(I, out.f(t), t))
+        else:
+            t = z3.Int('t!inv')
+            yield 'spec', z3.ForAll([t], z3.Implies(z3.And(0 <= t, t < i), self.clause(I, fr.locals['out'].f(t), t)), patterns=[self.E(t)])
+
+
+def _directed_zmap():
+    loc = dict(lat='42.9043', lon='13.0005', depth='11.1', mag='5.95')
+    recs = [dict(loc, t=[2017, 4, 22, 4, 42, 58]), dict(loc, t=[2019, 12, 31, 23, 59, 59]), dict(loc, t=[2020, 2, 29, 0, 0, 0]),
+            dict(loc, lat='-42.5', lon='-179.95', t=[1969, 7, 20, 20, 17, 40])]
+    return [('catalog_reader', dict(fmt='zmap', events=recs)), ('catalog_reader', dict(fmt='zmap', events=recs[:1]))]
+
+
+@contract
+class ZmapAscii:
+    directed = staticmethod(_directed_zmap)
+    qualname = ZMAP
+    case = 'table of any number of records; whole-number date and time columns of valid instants'
+    properties = ('C19',)
+    loops = {0: ZmapLoop()}
+
+    def params(c):
+        n = c.int('n_records')
+        c.ctx.assume(n >= 0)
+        COL = [c.ctx.fresh_fun('zmap_col%d' % k, z3.IntSort(), z3.RealSort()) for k in range(14)]
+        IV = {k: c.ctx.fresh_fun('zmap_int%d' % k, z3.IntSort(), z3.IntSort()) for k in Z_INT}
+        c.ctx.ghost['zmap_file'] = dict(COL=COL, IV=IV, n=n)
+        c.ctx.ghost.setdefault('files', {})['catalog.zmap'] = ('table2d', n, COL)
+        return dict(fname='catalog.zmap', _n=n)
+
+    def requires(c, fname, _n):
+        z = c.ctx.ghost['zmap_file']
+        COL, IV = z['COL'], z['IV']
+        t = z3.Int('t!rq')
+        y, mo, d, h, mi, s = (IV[k](t) for k in Z_INT)
+        leap = z3.And(y % 4 == 0, z3.Or(y % 100 != 0, y % 400 == 0))
+        dim = z3.If(z3.Or(mo == 4, mo == 6, mo == 9, mo == 11), 30, z3.If(mo == 2, z3.If(leap, 29, 28), 31))
+        return [z3.ForAll([t], z3.Implies(z3.And(0 <= t, t < _n), z3.And(
+            *[COL[k](t) == z3.ToReal(IV[k](t)) for k in Z_INT],
+            y >= 1, y <= 9998, mo >= 1, mo <= 12, d >= 1, d <= dim, h >= 0, h <= 23, mi >= 0, mi <= 59, s >= 0, s <= 59)),
+            patterns=[COL[Z_Y](t)])]
+
+    def ensures(c, r, fname, _n):
+        if isinstance(r, list) and not r:
+            yield 'an empty file gives no events', _n == 0
+            return
+        yield 'returns a list of events', z3.BoolVal(isinstance(r, SymList))
+        if not isinstance(r, SymList):
+            return
+        yield 'one event per record', to_z3(r.n) == _n
+        t = c.ctx.fresh_int('t!sk')
+        yield 'event t == (t, instant of record t in ms since the epoch (UTC), latitude, longitude, depth, magnitude of record t)', \
+            z3.Implies(z3.And(0 <= t, t < _n), ZmapLoop.clause(c.I, r.f(t), t))
+
+    def raises(c, exc, fname, _n):
+        return None
